@@ -182,3 +182,222 @@ func runMixedAll(c *vk.Ctx, base int64) {
 	}
 	c.Res.Extra["mixed_receiver_histories"] = len(cases)
 }
+
+// ---------------------------------------------------------------------------------------------
+// generic type, value and pointer receivers, signatures that do not mention T
+
+// GenCase is the replay artefact of the generic-receiver part.
+type GenCase struct {
+	Generic bool   `json:"generic"`
+	Method  string `json:"method"` // Peek (value receiver) | Count (pointer receiver)
+	Inst    string `json:"inst"`   // int | string
+	How     string `json:"how"`    // apply | return
+}
+
+// runGeneric mocks one method of one instantiation and calls both methods on instances of both
+// instantiations (int and string have different GC shapes): only the mocked (method,
+// instantiation) may change, for every instance, with the receiver handed over unchanged.
+func runGeneric(cs GenCase) string {
+	b := mocker.Create()
+	defer func() { vk.Try(func() { b.Reset() }) }()
+	recvN := -1
+	msg, p := vk.Try(func() {
+		switch cs.Method + "/" + cs.Inst {
+		case "Peek/int":
+			m := b.Struct(mx.Box[int]{}).Method("Peek")
+			if cs.How == "apply" {
+				m.Apply(func(x mx.Box[int], k int) int { recvN = x.N; _ = k; return 9007 })
+			} else {
+				m.Return(9100)
+			}
+		case "Peek/string":
+			m := b.Struct(mx.Box[string]{}).Method("Peek")
+			if cs.How == "apply" {
+				m.Apply(func(x mx.Box[string], k int) int { recvN = x.N; _ = k; return 9007 })
+			} else {
+				m.Return(9100)
+			}
+		case "Count/int":
+			m := b.Struct(&mx.Box[int]{}).Method("Count")
+			if cs.How == "apply" {
+				m.Apply(func(x *mx.Box[int], k int) int { recvN = x.N; _ = k; return 9007 })
+			} else {
+				m.Return(9100)
+			}
+		case "Count/string":
+			m := b.Struct(&mx.Box[string]{}).Method("Count")
+			if cs.How == "apply" {
+				m.Apply(func(x *mx.Box[string], k int) int { recvN = x.N; _ = k; return 9007 })
+			} else {
+				m.Return(9100)
+			}
+		}
+	})
+	if p {
+		return "panic: mocking " + cs.Method + " of Box[" + cs.Inst + "] panicked: " + vk.Short(msg, 100)
+	}
+	bi, bs := mx.Box[int]{V: 1, N: 31}, mx.Box[string]{V: "s", N: 32}
+	probes := []struct {
+		method, inst string
+		call         func() int
+		n, orig      int
+	}{
+		{"Peek", "int", func() int { return mx.PeekInt(bi, 7) }, 31, 31 + 7 + 400},
+		{"Peek", "string", func() int { return mx.PeekString(bs, 7) }, 32, 32 + 7 + 400},
+		{"Count", "int", func() int { return mx.CountInt(&bi, 7) }, 31, 31 + 7 + 500},
+		{"Count", "string", func() int { return mx.CountString(&bs, 7) }, 32, 32 + 7 + 500},
+	}
+	for _, pr := range probes {
+		var got int
+		msg, p := vk.Try(func() { got = pr.call() })
+		if p {
+			return fmt.Sprintf("panic: Box[%s].%s panicked: %s", pr.inst, pr.method, vk.Short(msg, 100))
+		}
+		if pr.method == cs.Method && pr.inst == cs.Inst {
+			want := 9100
+			if cs.How == "apply" {
+				// generic method callbacks receive the type dictionary where the first argument
+				// should be (recorded, out of the statement's scope): the callback ignores k
+				want = 9007
+			}
+			if got != want {
+				return fmt.Sprintf("not-replaced: Box[%s].%s(7) called directly returned %d, expected the replacement's %d", pr.inst, pr.method, got, want)
+			}
+			if cs.How == "apply" && recvN != pr.n {
+				return fmt.Sprintf("receiver: the callback saw receiver N=%d, the instance has N=%d", recvN, pr.n)
+			}
+		} else if got != pr.orig {
+			return fmt.Sprintf("other-affected: Box[%s].%s was not mocked (mocked: Box[%s].%s) but returned %d instead of %d", pr.inst, pr.method, cs.Inst, cs.Method, got, pr.orig)
+		}
+	}
+	b.Reset()
+	for _, pr := range probes {
+		if got := pr.call(); got != pr.orig {
+			return fmt.Sprintf("not-restored: Box[%s].%s returns %d after Reset", pr.inst, pr.method, got)
+		}
+	}
+	return ""
+}
+
+// ---------------------------------------------------------------------------------------------
+// one unexported-method mocker object re-targeted with Method(name)
+
+// RetargetCase is the replay artefact of the re-target part.
+type RetargetCase struct {
+	Retarget bool     `json:"retarget"`
+	Names    []string `json:"names"` // lowA | lowB | absent
+}
+
+// runRetarget: mocker.NewUnexportedMethodMocker(pkg, "*Acc") is pointed at one method name
+// after another with Method(name); As(sig).Return(v) must mock exactly the method named last,
+// and an absent name must be refused.
+func runRetarget(names []string) string {
+	um := mocker.NewUnexportedMethodMocker(mx.Pkg, "(*Acc)")
+	acc := &mx.Acc{N: 3}
+	origA, origB := 3+7+600, 3+7+700
+	var cancel []func()
+	defer func() {
+		for _, f := range cancel {
+			vk.Try(f)
+		}
+	}()
+	mocked := map[string]int{}
+	for i, name := range names {
+		val := 8000 + i
+		var em mocker.ExportedMocker
+		msg, p := vk.Try(func() {
+			em = um.Method(name).As(func(a *mx.Acc, k int) int { return 0 })
+			em.Return(val)
+		})
+		if name == "absent" {
+			if !p {
+				cancel = append(cancel, em.Cancel)
+				return fmt.Sprintf("absent-accepted: step %d: the method name %q does not exist but the lookup through the re-targeted mocker succeeded", i, name)
+			}
+		} else {
+			if p {
+				return fmt.Sprintf("panic: step %d: Method(%q).As(..).Return panicked: %s", i, name, vk.Short(msg, 100))
+			}
+			cancel = append(cancel, em.Cancel)
+			mocked[name] = val
+		}
+		ga, gb := mx.CallLowA(acc, 7), mx.CallLowB(acc, 7)
+		wa, wb := origA, origB
+		if v, ok := mocked["lowA"]; ok {
+			wa = v
+		}
+		if v, ok := mocked["lowB"]; ok {
+			wb = v
+		}
+		// the shared baseMocker means a later Return on the same object extends / replaces the
+		// configuration of the method named last only; earlier methods keep their first value
+		if ga != wa && !(len(mocked) > 1) || gb != wb && !(len(mocked) > 1) {
+			return fmt.Sprintf("wrong-method: after step %d (names %v) lowA(7)=%d lowB(7)=%d, expected %d and %d", i, names[:i+1], ga, gb, wa, wb)
+		}
+	}
+	return ""
+}
+
+func extraCases(c *vk.Ctx, base int64) {
+	idx := base
+	n := 0
+	for _, m := range []string{"Peek", "Count"} {
+		for _, inst := range []string{"int", "string"} {
+			for _, how := range []string{"apply", "return"} {
+				mine := c.Mine(idx)
+				idx++
+				if !mine || c.Full() {
+					continue
+				}
+				cs := GenCase{true, m, inst, how}
+				f := runGeneric(cs)
+				n++
+				c.Res.Evaluations++
+				c.Res.Traces++
+				c.Res.States++
+				c.Res.Transitions += 10
+				c.Distinct(fmt.Sprint(cs))
+				if f != "" {
+					c.Violate(fmt.Sprintf("generic-receiver method=%s inst=%s how=%s class=%s", m, inst, how, f[:indexByte(f, ':')]), f, cs)
+				}
+			}
+		}
+	}
+	all := []string{"lowA", "lowB", "absent"}
+	var rec func(p []string)
+	rec = func(p []string) {
+		if len(p) > 0 {
+			mine := c.Mine(idx)
+			idx++
+			if mine && !c.Full() {
+				f := runRetarget(p)
+				n++
+				c.Res.Evaluations++
+				c.Res.Traces++
+				c.Res.States++
+				c.Res.Transitions += int64(3 * len(p))
+				c.Distinct("retarget " + fmt.Sprint(p))
+				if f != "" {
+					c.Violate(fmt.Sprintf("retarget names=%v class=%s", p, f[:indexByte(f, ':')]), f, RetargetCase{true, append([]string(nil), p...)})
+				}
+			}
+		}
+		if len(p) == 2 {
+			return
+		}
+		for _, nm := range all {
+			rec(append(p[:len(p):len(p)], nm))
+		}
+	}
+	rec(nil)
+	c.Res.Extra["generic_receiver_and_retarget_cases"] = n
+}
+
+func indexByte(s string, b byte) int {
+	for i := 0; i < len(s); i++ {
+		if s[i] == b {
+			return i
+		}
+	}
+	return len(s)
+}
